@@ -5,6 +5,7 @@ import (
 	"fmt"
 	compact_time "github.com/kstenerud/go-compact-time"
 	"math"
+	"math/big"
 	"runtime"
 	"strings"
 	"sync"
@@ -149,6 +150,26 @@ var c08Families = func() []c08Family {
 				out = append(out, 0x6c, byte(i), byte(i>>8), byte(i>>16), byte(i>>24), 0x01)
 			}
 			return cbeDoc(out, []byte{0x9b})
+		}},
+		// one map with n keys, closed, then n one-entry maps (and the other way round): whatever the validator keeps
+		// per container must not be sized by the largest container seen so far
+		{name: "cbe-big-map-then-small-maps", format: "cbe", timing: true, maxN: 1 << 16, build: func(n int, _ []byte) []byte {
+			out := []byte{0x9a, 0x99}
+			for i := 0; i < n; i++ {
+				out = append(out, 0x6c, byte(i), byte(i>>8), byte(i>>16), byte(i>>24), 0x01)
+			}
+			out = append(out, 0x9b)
+			out = append(out, repB([]byte{0x99, 0x01, 0x7d, 0x9b}, n)...)
+			return cbeDoc(out, []byte{0x9b})
+		}},
+		{name: "cte-big-map-then-small-maps", format: "cte", timing: true, maxN: 1 << 14, build: func(n int, _ []byte) []byte {
+			var b strings.Builder
+			b.WriteString("c0\n[{")
+			for i := 0; i < n; i++ {
+				fmt.Fprintf(&b, "%d=1 ", i)
+			}
+			b.WriteString("} " + rep("{1=null} ", n) + "]")
+			return []byte(b.String())
 		}},
 		{name: "cbe-padding-run", format: "cbe", timing: true, maxN: 1 << 21, build: func(n int, _ []byte) []byte {
 			return cbeDoc(repB([]byte{0x95}, n), []byte{1})
@@ -449,8 +470,45 @@ var c08Families = func() []c08Family {
 			return cbeDoc(out, []byte{1})
 		}},
 	}
+	// tiny documents holding numbers with extreme decimal exponents, read into typed destinations: a
+	// conversion must decide "does not fit" from the exponent, not by computing 10^exponent first
+	// (hexadecimal floats are left out: their decimal conversion is the open finding S75)
+	for _, dest := range c08NumberDests {
+		dest := dest
+		fams = append(fams, c08Family{name: "cte-extreme-exponents-into-" + dest, format: "cte", maxN: 64, build: func(n int, _ []byte) []byte {
+			var b strings.Builder
+			b.WriteString("c0\n[")
+			for i := 0; i < 1+n/len(c08ExtremeNumbers); i++ {
+				b.WriteString(c08ExtremeNumbers[(n+i)%len(c08ExtremeNumbers)] + " ")
+			}
+			b.WriteString("]")
+			return []byte(b.String())
+		}})
+	}
 	return fams
 }()
+
+var c08NumberDests = []string{"uint64", "uint8", "uint", "int64", "int8", "float64", "float32", "bigint", "bigfloat", "iface"}
+
+var c08ExtremeNumbers = []string{
+	"12345678901234567890123e2147483647", "12345678901234567890123e300000000", "12345678901234567890123e30000000", "12345678901234567890123e3000000",
+	"-12345678901234567890123e2147483647", "-12345678901234567890123e30000000", "1e2147483647", "1e300000000", "7e30000000", "-3e30000000",
+	"12345678901234567890123e-2147483640", "12345678901234567890123e-30000000", "1e-2147483000", "1.5e-30000000", "18446744073709551615000000000000e-12", "18446744073709551616e0",
+	"100000000000000000000000e-4", "1e19", "1e20",
+}
+
+func init() {
+	tm := map[string]func() interface{}{
+		"uint64": func() interface{} { return []uint64{} }, "uint8": func() interface{} { return []uint8{} }, "uint": func() interface{} { return []uint{} },
+		"int64": func() interface{} { return []int64{} }, "int8": func() interface{} { return []int8{} },
+		"float64": func() interface{} { return []float64{} }, "float32": func() interface{} { return []float32{} },
+		"bigint": func() interface{} { return []*big.Int{} }, "bigfloat": func() interface{} { return []*big.Float{} },
+		"iface": func() interface{} { return []interface{}{} },
+	}
+	for _, d := range c08NumberDests {
+		c08Templates["cte-extreme-exponents-into-"+d] = tm[d]
+	}
+}
 
 func c08Family_(name string) *c08Family {
 	for i := range c08Families {
